@@ -227,6 +227,11 @@ class AceGroup(AceBase, Group):
     @type.setter
     def type(self, type_: str) -> None:
         type_ = h.init_type(type=type_, platform=self.platform)
+        if type_ == "standard":  # refuse before any item is converted (conversion drops fields)
+            for item in self._items:
+                if isinstance(item, Ace) and item.type == "extended" and item.srcaddr.addrgroup:
+                    addrgroup = item.srcaddr.addrgroup
+                    raise ValueError(f"mutually exclusive: type={type_!r}, {addrgroup=}")
         for item in self._items:
             item.type = type_
         self._type = type_
